@@ -288,10 +288,14 @@ func xsimMethod(self string) contract.KernMethod {
 		if err := json.Unmarshal(k.Args()["prog"], &prog); err != nil {
 			return nil, err
 		}
-		k.AddResourceUsed(contract.Limits{Cpu: int64(len(prog))})
 		tr, st, err := RunKProg(k, self, prog)
 		if err != nil {
 			return nil, err
+		}
+		// like the real kernel contracts, charge at the end and only in the outer contract: the
+		// kernel VM does not account sub-call usage to the caller's reported limits
+		if self == XsimContract {
+			k.AddResourceUsed(contract.Limits{Cpu: int64(len(prog))})
 		}
 		return &contract.Response{Status: st, Body: []byte(tr)}, nil
 	}
